@@ -57,7 +57,10 @@ def tree_stamp():
 def build(name, main_src, repo_srcs=(), sanitize=True, opt='-O0', extra=(), libs=(), timeout=900, ndebug=True):
     """compile main_src (text) + real sources; returns path of the executable. Objects of repo sources are cached by content hash."""
     d = workdir('native', name)
-    flags = ['-std=c++17', opt, '-g', '-w'] + (['-DNDEBUG'] if ndebug else []) + (SAN if sanitize else []) + include_flags() + list(extra)
+    # the cmake build of the libraries injects -march=native (INJECT_MARCH_NATIVE): Eigen's alignment of dynamic objects is part of the ABI, so programs
+    # linked against those libraries must be compiled the same way (otherwise aligned_malloc/free mismatch: 'double free or corruption')
+    march = ['-march=native'] if libs and '-march=native' not in extra else []
+    flags = ['-std=c++17', opt, '-g', '-w'] + (['-DNDEBUG'] if ndebug else []) + (SAN if sanitize else []) + include_flags() + list(extra) + march
     objs = []
     jobs = []
     mp = os.path.join(d, 'main.cc')
